@@ -493,16 +493,21 @@ func c03Sweep(w *fw.W, idx int) {
 	// values in two positions (a defect that needs a PAIR of unusual arguments, such as
 	// a long string and a count near the integer limit, is otherwise a lottery).
 	rep := k / (len(st.funs) * (maxAr + 1)) // how often this (function, arity) came up before
-	var bidx []int                          // boundary subset of the pool
+	var bidx []int // boundary subset of the pool
+	perType := map[lisp.LType]int{}
 	for j, p := range pool {
 		switch {
 		case p.Type == lisp.LInt, p.Type == lisp.LFloat && (j%2 == 0), p.Type == lisp.LString && len(p.Str) != 1, p.Type == lisp.LBytes && j%2 == 0:
 			bidx = append(bidx, j)
-		}
-	}
-	for _, src := range []int{38, 40, 42, 47, 51, 56, 60, 61, 65, 66} { // 'sym 'list nil '(1 2 3) (vector 1 2 3) map native time duration car lambda
-		if src < len(pool) {
-			bidx = append(bidx, src)
+		case p.Type == lisp.LArray:
+			bidx = append(bidx, j) // every array shape: empty, flat, nested, 0-dimensional, multi-dimensional
+		case p.Type == lisp.LFloat || p.Type == lisp.LString || p.Type == lisp.LBytes:
+		default:
+			// two representatives of every other type (symbols, lists, maps, natives, functions ...)
+			if perType[p.Type] < 2 {
+				perType[p.Type]++
+				bidx = append(bidx, j)
+			}
 		}
 	}
 	enumerate := arity >= 1 && arity <= 3 && rep%2 == 0
